@@ -46,8 +46,11 @@ def r_fmt(s):
         if mo is None:
             return s, log
         e = match_close(s, m, mo.end() - 1)
-        log.append(("R-fmt", norm_ws(s[mo.start():e + 1])[:120], '""'))
-        s = s[:mo.start()] + '""' + s[e + 1:]
+        # an owned String is wanted where the text is the direct argument of an error variant that stores a String
+        owned = (not mo.group(0).lstrip().startswith("&")) and re.search(r"\bCustomError\s*\(\s*$", s[:mo.start()]) is not None
+        rep = "String::new()" if owned else '""'
+        log.append(("R-fmt", norm_ws(s[mo.start():e + 1])[:120], rep))
+        s = s[:mo.start()] + rep + s[e + 1:]
 
 
 def r_vis(s):
